@@ -1105,8 +1105,12 @@ func runC20(c *Ctx) {
 				j = len(ls) - 3
 			}
 			tr := ls[j : j+3]
-			alpha = append(alpha, &c20Letters{fmt.Sprintf("alpha %c/%c %c/%c %c/%c", tr[0][0], tr[0][1], tr[1][0], tr[1][1], tr[2][0], tr[2][1]),
-				map[rune][2]rune{'a': tr[0], 'b': tr[1], 'c': tr[2]}})
+			// the literal leaves only use the letters a and b: every rotation, so that each letter plays each part
+			for rot := 0; rot < 3; rot++ {
+				x, y, z := tr[rot%3], tr[(rot+1)%3], tr[(rot+2)%3]
+				alpha = append(alpha, &c20Letters{fmt.Sprintf("alpha %c/%c %c/%c %c/%c", x[0], x[1], y[0], y[1], z[0], z[1]),
+					map[rune][2]rune{'a': x, 'b': y, 'c': z}})
+			}
 		}
 		c.extra["alpha_letters"] = len(ls)
 	}
